@@ -5,9 +5,10 @@ from .util import call
 
 ID = 'C01'
 LEAN_MODULE = 'KernProofs.C01'
-EXTRA_MODULES = ['KernProofs.C01Norm']
+EXTRA_MODULES = ['KernProofs.C01Norm', 'KernProofs.C01Text']
 THEOREMS = ['KM.C01.C01_canon', 'KM.C01.C01_canon_export', 'KM.C01.canon_sameContent', 'KM.C01.C01_export_is_render_canon', 'KM.C01.C01_cell_fixed_point', 'KM.C01.canon_idem', 'KM.Spec.sortedSet_congr', 'KM.Spec.sortedSet_idem', 'KM.C03.C03_single',
-            'KM.C01N.C01_normal_form_fixed_point', 'KM.C01N.C01_normalForm_idem', 'KM.C01N.RT_P0']
+            'KM.C01N.C01_normal_form_fixed_point', 'KM.C01N.C01_normalForm_idem', 'KM.C01N.RT_P0',
+            'KM.C01T.specExport_rel', 'KM.C01T.toks_rel', 'KM.C01T.C01_export_of_normal_form', 'KM.C01T.C01_dumps_of_normal_form']
 FINGERPRINTS = ['tokens.NoteRestToken.export', 'tokens.ChordToken.export', 'tokenizers.KernTokenizer.tokenize', 'tokenizers.EkernTokenizer.tokenize',
                 'base_antlr_spine_parser_listener', 'exporter.Exporter.export_string', 'exporter.get_kern_from_ekern', 'importer.Importer',
                 'kern_spine_importer.KernSpineImporter.import_token']
@@ -83,6 +84,25 @@ def explore(ctx, depth):
         if ea != eb:
             ctx.fail({'text_a': a.text, 'text_b': b.text, 'clause': 'canonicity (signifier pair corpus)'},
                      'two writings of the same notes (same signifier sets) export differently', impl=ea, expected=eb)
+    # the statements of C01_normalForm_idem and C01_dumps_of_normal_form evaluated on the real library: the cell-wise normal form of the text
+    # (computed by the Lean definition `C01N.normalForm` with the real parser's per-cell outcomes) is idempotent and exports to the same text
+    live = [c for c in cases if c.doc is not None]
+    nresp = ctx.driver.ask([{'op': 'doc.norm', 'text': c.text, 'oracle': impl.oracle_for_text(c.text)} for c in live])
+    ntexts = [''.join('\t'.join(row) + '\n' for row in r['rows']) for r in nresp]
+    n2resp = ctx.driver.ask([{'op': 'doc.norm', 'text': t, 'oracle': impl.oracle_for_text(t)} for t in ntexts])
+    for c, nt_, r2 in zip(live, ntexts, n2resp):
+        n2 = ''.join('\t'.join(row) + '\n' for row in r2['rows'])
+        ctx.seen({'text': c.text, 'clause': 'normal form'}, docrun.nontrivial(c))
+        ctx.count('normal_form:' + ('changed' if nt_ != c.text else 'same'))
+        if n2 != nt_:
+            ctx.fail({'text': c.text, 'normal_form': nt_, 'clause': 'normal form idempotent'},
+                     'the cell-wise normal form of the text (every data cell replaced by its exported text) is not a fixed point of itself', impl=n2, expected=nt_)
+            continue
+        ea = call(lambda: kp.dumps(c.doc))
+        eb = call(lambda: kp.dumps(kp.loads(nt_)[0]))
+        if ea != eb:
+            ctx.fail({'text': c.text, 'normal_form': nt_, 'clause': 'export of the normal form'},
+                     'dumps(loads(normal form of the text)) differs from dumps(loads(text))', impl=eb, expected=ea)
     # chains on generated documents
     chain_cases, chain_exps = [], []
     for case in cases:
